@@ -203,6 +203,14 @@ func (e *Engine) evCall(c *ast.CallExpr, st *State) []Value {
 					return []Value{{sx("select", h, key), e.typeOf(c)}}
 				}
 			}
+		case "lastcb":
+			// lastcb(): result of the latest callback call of the iterator run in progress (see iteratorCall)
+			if e.isSpecHelper(id) {
+				if v, ok := st.vars[iterCbKey]; ok {
+					return []Value{{v.T, e.typeOf(c)}}
+				}
+				return []Value{e.zero(e.typeOf(c))}
+			}
 		case "called":
 			// called("f"): a tracked call to f happened on this path
 			if e.isSpecHelper(id) {
@@ -337,6 +345,15 @@ func (e *Engine) evCall(c *ast.CallExpr, st *State) []Value {
 		if res, ok := e.ifaceStub(c, se, *recv, args, sig, st); ok {
 			return res
 		}
+		if e.spec == 0 && e.c != nil {
+			if ls := e.c.Iters[se.Sel.Name]; ls != nil && len(c.Args) == 1 {
+				if id, ok := unparen(c.Args[0]).(*ast.Ident); ok {
+					if lit := e.closureOf(id); lit != nil {
+						return e.iteratorCall(c, se.Sel.Name, ls, lit, sig, st)
+					}
+				}
+			}
+		}
 		if e.spec > 0 || e.pureMethod(se.Sel.Name) {
 			e.stubsUsed["interface method "+se.Sel.Name+": deterministic function of receiver and arguments with no effect on tracked memory (declared by `opt puremethods`, or used inside a specification)"] = true
 			return e.pureUF("ifc."+se.Sel.Name, sig, recv, args, st)
@@ -359,6 +376,16 @@ func (e *Engine) evCall(c *ast.CallExpr, st *State) []Value {
 		e.fail(c.Pos(), "call through function value in specification")
 	}
 	e.abstract("call through function value "+exprStr(c.Fun)+" (results and heap havocked)", c.Pos())
+	if id, ok := fun.(*ast.Ident); ok && e.c != nil {
+		// `opt stopatfirsterror f`: the callback f is never called again once it has returned a non-nil error
+		for _, n := range strings.Fields(e.c.Opts["stopatfirsterror"]) {
+			if n == id.Name {
+				if lr, ok := st.vars[e.ghostKey("lastret", e.pk.Info.ObjectOf(id))]; ok {
+					e.obligeNamed(st, fmt.Sprintf("pre:no-call-after-error#%d", e.callSite("cb:"+n)), "pre", e.isNil(lr), c.Pos(), "the callback "+n+" is not called after it returned an error", "")
+				}
+			}
+		}
+	}
 	e.havocAll(st)
 	res := e.havocResults(st, sig, "fv")
 	if id, ok := fun.(*ast.Ident); ok {
